@@ -345,6 +345,7 @@ func checkC14(r *Report) {
 	}
 	sortAfterAppendRule(r, p, "C14.g/SORT-AFTER-APPEND")
 	argNotRetainedRule(r, p, e, "C14.h/ARG-NOT-RETAINED")
+	argMapsCopiedRule(r, p, "C14.i/ARG-MAPS-COPIED")
 	n := readPureRule(r, p, e, "C14.c/READ-PURE", "resolve.LocalClient")
 	r.floor("C14.c/READ-PURE", "resolve.Client methods of LocalClient", n, 4)
 }
